@@ -121,7 +121,7 @@ def _mk_limit(family):
     def ob(c):
         from .pipeline import requests_for
         h = Harness(c, family)
-        method, path, qs, body, ctype = requests_for(family)['valid']
+        method, path, qs, body, ctype = requests_for(family)['valid'][:5]
         limit = c.choose([len(body) - 1, len(body), 4], 'max_content_length')
         declared = c.choose(['exact', 'absent', 'larger_than_limit', 'smaller_than_body'], 'declared_length')
         h.wsgi.max_content_length = limit
